@@ -222,6 +222,7 @@ func jsonEncodings(s string) []string {
 
 var c14JSONDocs = []string{
 	`null`, `"a"`, `""`, `"a\nb"`, `"a\rb"`, `"\u000a"`, `"\u000d"`, `"\u000D\u000A"`, `"a\\nb"`, `123`, `true`, `{}`, `[]`, `["a\n"]`, `"😀"`,
+	"\"a\nb\"", "\"a\rb\"", "\"\n\"", "\"1\n\ndata: injected\"", "\"a\r\n\"", "\"\r\"",
 	`"\ud800"`, `"a b"`, `"\u0085"`, ` "a\n" `, `"a`, ``, `nul`, `"\n"`, `"x\r\ny"`, `"data: x\n\ndata: y"`,
 }
 
@@ -393,6 +394,15 @@ func c15Message(r *fw.Run, key string, b *builtMsg, faultAll bool) {
 				"C15: UnmarshalText(MarshalText(m)) does not reproduce the message (fields ok=%v)", okFields)
 		}
 		r.Count("roundtrips", 1)
+		// decode something else into the same receiver: a clone taken before must keep its content
+		keep := m2.Clone()
+		keepEnc := keep.String()
+		if err := m2.UnmarshalText([]byte("id: other\ndata: o1\ndata: o2\n: oc\ndata: o3\n\n")); err == nil {
+			if keep.String() != keepEnc {
+				r.Violation(key, []string{"unmarshal_reuses_storage"}, map[string]any{"ops": b.Ops, "clone_before": fw.Q(fw.Trunc(keepEnc, 300)), "clone_after": fw.Q(fw.Trunc(keep.String(), 300))},
+					"C15: decoding another text into the same receiver changed a clone taken from the first result")
+			}
+		}
 	}
 	// (b) fault injection at every Write call
 	probe := &mon.FaultWriter{FailAt: -1}
